@@ -471,7 +471,10 @@ impl<T: LspContext> Backend<T> {
 
     fn did_change(&self, params: DidChangeTextDocumentParams) -> Result<(), LspOpError> {
         // We asked for Sync full, so can just grab all the text from params
-        let change = params.content_changes.into_iter().next().unwrap();
+        let Some(change) = params.content_changes.into_iter().next() else {
+            // Nothing changed.
+            return Ok(());
+        };
         self.validate(
             params.text_document.uri,
             Some(params.text_document.version as i64),
